@@ -59,12 +59,15 @@ func c09Scenarios(seed int64, n int, pairs bool) []c09Scenario {
 	for _, fk := range kinds {
 		for _, sk := range kinds {
 			for _, ck := range curvesK {
-				fks := []string{"sensorRead", "sensorGarbage", "rpmRead", "pwmRead", "pwmWrite", "fanReadBoth"}
+				fks := []string{"sensorRead", "sensorGarbage", "rpmRead", "pwmRead", "pwmWrite", "fanReadBoth", "sensorDead"}
 				if fk == "cmd" || sk == "cmd" {
 					fks = append(fks, "noExec")
 				}
 				for _, f1 := range fks {
 					for _, cyc := range []int{-1, 0, 1, 3} {
+						if f1 == "sensorDead" && cyc != 0 {
+							continue // (long scenarios: one placement is enough)
+						}
 						sc := c09Scenario{FanKind: fk, SensorKind: sk, CurveKind: ck,
 							Faults: []c09Fault{{Kind: f1, Cycle: cyc, N: 1 + r.Intn(4)}}, Seed: r.Int63()}
 						all = append(all, sc)
@@ -398,6 +401,15 @@ func runC09Scenario(rec *Recorder, sc c09Scenario) {
 			bg.After(window, func() { os.Remove(path) })
 		}
 		switch f.Kind {
+		case "sensorDead":
+			// a long outage: the sensor cannot be read for two and a half minutes (hundreds of polls in a row), then it is back
+			if sc.SensorKind == "cmd" {
+				p := filepath.Join(sensorDir, "fault")
+				must(os.WriteFile(p, []byte("fail"), 0644))
+				bg.After(150*time.Second, func() { os.Remove(p) })
+			} else {
+				h.ReadFaultSkip("s.temp", 750, 0)
+			}
 		case "sensorRead", "sensorGarbage":
 			mode := map[string]string{"sensorRead": "fail", "sensorGarbage": "garbage"}[f.Kind]
 			if sc.SensorKind == "cmd" {
@@ -449,9 +461,13 @@ func runC09Scenario(rec *Recorder, sc c09Scenario) {
 	started := false
 	pending := append([]c09Fault{}, sc.Faults...)
 	last := 0
+	longOutage := 0
 	for _, f := range pending {
 		if f.Cycle > last {
 			last = f.Cycle
+		}
+		if f.Kind == "sensorDead" {
+			longOutage = 800 // cycles: the scenario outlasts the outage
 		}
 	}
 	h.OnEvent = func(n int, fanId, event string) {
@@ -498,14 +514,14 @@ func runC09Scenario(rec *Recorder, sc c09Scenario) {
 			}
 		}
 		pending = rest
-		if cycles == last+8 {
+		if cycles == last+8+longOutage {
 			go func() {
 				rec.Emit(Ev{"ev": "Cancel", "why": "done"})
 				cancel()
 			}()
 		}
 	}
-	bg.After(3*time.Minute, func() {
+	bg.After(4*time.Minute, func() {
 		rec.Emit(Ev{"ev": "Cancel", "why": "timeout"})
 		cancel()
 	})
